@@ -12,6 +12,8 @@ void RIS(void* self, void* dst, void* tw, _Bool fl) {
   else { __CPROVER_assert(g_step == 2, "two re-indexings, after the result was constructed");
     g_ok2 = (self == (void*)g_rhs && dst == (void*)g_ret && tw == g_tw2 && tw != g_tw1 && fl && g_tw2_f == g_f2 && g_tw2_map == (g_pr ? g_pr : g_lm2) && g_tw2_map != g_tw1_map && g_cnt1 == g_cnt2 && g_cnt1 != 0); g_step = 3; } }
 void AUT_DTOR(void* a) { if (a == (void*)g_ret) g_ret_destroyed = 1; }
+/* not called today: kept so that an edit comparing the operands' rule stores gets a verdict (copies of an automaton SHARE their store: C11) */
+_Bool SPM_NE(void* a, void* b) { return ((void**)a)[0] != ((void**)b)[0]; }
 /* ---- UnionDisjointStates ---- */
 void AUT_COPY3(void* d, void* s, _Bool ct, _Bool cf) { __CPROVER_assert(d == (void*)g_ret && s == (void*)g_lhs && ct && cf && g_step == 0, "C02: the result starts as a copy of lhs (rules and final states)"); g_step = 1; SP_PTR(&((AUT*)d)->f2) = m_l; /* shared with lhs */ }
 void* UCM(void* a) { __CPROVER_assert(a == (void*)g_ret && g_step == 1 && !g_rins_c, "C02/C11: the result's cluster map is made exclusive before it is written"); g_ucm = 1; SP_PTR(&((AUT*)a)->f2) = m_res; return &((AUT*)a)->f2; }
@@ -22,6 +24,7 @@ void* FS_BEGIN(void* s) { __CPROVER_assert(s == (void*)&g_rhs->f1, "range over t
 void* FS_END(void* s) { __CPROVER_assert(s == (void*)&g_rhs->f1, "range over the final states of rhs"); return (void*)0; }
 void FS_RINSERT(void* s, void* b, void* e) { __CPROVER_assert(s == (void*)&g_ret->f1 && b == (void*)16 && e == (void*)0 && !g_rins_f, "C02: all final states of rhs are inserted, once, into the result's own final states"); g_rins_f = 1; }
 static void setup(void) { g_lhs = malloc(sizeof *g_lhs); g_rhs = malloc(sizeof *g_rhs); g_ret = malloc(sizeof *g_ret); m_l = malloc(64); m_r = malloc(64); m_res = malloc(64); __CPROVER_assume(g_lhs && g_rhs && g_ret && m_l && m_r && m_res);
-  SP_PTR(&g_lhs->f2) = m_l; SP_PTR(&g_rhs->f2) = m_r; g_umaps = 0; g_step = 0; g_funcs = 0; g_tws = 0; g_ret_destroyed = 0; g_ucm = 0; g_rins_c = 0; g_rins_f = 0; }
-void h_UNION(void) { setup(); g_pl = nondet_bool() ? malloc(56) : (void*)0; g_pr = nondet_bool() ? malloc(56) : (void*)0; UNION(g_ret, g_lhs, g_rhs, g_pl, g_pr); CANARY("h_UNION"); }
+  SP_PTR(&g_lhs->f2) = m_l; SP_PTR(&g_rhs->f2) = m_r; g_share = 0; g_umaps = 0; g_step = 0; g_funcs = 0; g_tws = 0; g_ret_destroyed = 0; g_ucm = 0; g_rins_c = 0; g_rins_f = 0; }
+void h_UNION(void) { setup(); if (nondet_bool()) { SP_PTR(&g_rhs->f2) = m_l; g_share = 1; }   /* rhs may be a copy of lhs that shares its rule store (and differs in its final states) */
+  g_pl = nondet_bool() ? malloc(56) : (void*)0; g_pr = nondet_bool() ? malloc(56) : (void*)0; UNION(g_ret, g_lhs, g_rhs, g_pl, g_pr); CANARY("h_UNION"); }
 void h_UDS(void) { setup(); UDS(g_ret, g_lhs, g_rhs); CANARY("h_UDS"); }
